@@ -26,7 +26,7 @@ META["technique"] += "; package C14z: the same error-monad models + theorem fami
 META["level_text"] += " Package C14z (C14_bddq_*, C14_bcddq_*, C14_zbddv_*, C14_tdd_*; 48 theorems): ONE statement per family for EVERY call k of the interface (qcall = KQuant q f vars | KApplyQuant q op f g vars | KRestrict f vars | KSubst f pairs id; cqcall the same on edges; zvcall = ZVSubset op f var | ZVRestrict f vars | ZVVar var | ZVNotVar var; tcall = TCNot f | TCBin op f g | TCIte f g h), run_c = the bounded run of the *_edge entry point, run_u = the unbounded entry point of the C04 / C09 / C11 model: never_wrong (GOk s' c' r => run_u = Some (s', c', r), no hypothesis), retry and monotone (no hypothesis; monotone also across recursors), never_wrong_sem (under the kind's invariant and valid operands a result leaves the invariant, intact / intact_c / intact_z / intact_t and denotes the specification: quant (qfun q) vs .. / restrict_s lits .. / subst_s .. for every reading of vars as a variable set / cube, f_sub on families, the Boolean cofactor, the variable, the fixed three-valued tables), safe (GOom s' c' => invariant incl. the quantification cache invariant, extends, intact*, store full), no_panic, exact (the call fails IF AND ONLY IF the table of the unbounded run does not fit), outcome_recursor_indep (either recursor at every depth of the own recursion AND of the inner apply calls; not tdd: sequential code), tdd var_exact / var_never_wrong, failed_meaning / intact_meaning, the decision theorems of the call-hypothesis checkers (cqcall_ok_b, zvcall_ok_b) and the cache-less tie instances (bcddq_nc_exact, tdd_nc_exact: hypotheses = the two checkers the driver evaluates), non-vacuity examples with garbage after a failure (substitute_prepare failing after the first variable node; var_edge / restrict_base loops failing in the middle) and exactness instantiated for all capacities. New in the proofs: a failed inner apply call only added apply-coded cache entries (frame walk apply_*_c_cfr / capply_*_c_frame), so the quantification cache invariant survives it. Tie (C14 driver, cap < 100): EXISTS / FORALL / UNIQUE / AEX / AFA / AUQ / RESTRICT / SUBST (bdd, bcdd; the harness's own cube construction t, var / not_var, and is replayed step by step through the bounded model; a substitution's replacement functions are read from the snapshot), SUBSET0 / SUBSET1 / CHANGE / VAR / NVAR / RESTRICT (zbdd), T3NOT / T3AND .. T3IMPS / T3ITE / T3VAR (tdd; td_ok_b on every snapshot): out-of-memory or not, stored nodes afterwards, value table of the result (tdd: over all 3^n assignments)."
 META["level_note"] += " Package C14z: the budget models now cover everything listed above as 'NOT modelled with a budget' EXCEPT pick_cube_dd / pick_cube_dd_set (BDD / BCDD / ZBDD) and the MTBDD value-table composite; the sentence 'TDD: no bounded (budget) model' above is superseded (the TDD rule set has one; it still has no ownership model). Inner calls: which recursor an inner apply call uses at which of its depths is a second parameter (pin); the code continues to count its remaining parallel depth down inside the inner call - an instance; all theorems hold for every par and pin. The ZBDD restrict model (like DD/ZbddBool.v) keys its cache entry by (f, vars) only, the code additionally by num_levels (fix f8637cd): irrelevant for out-of-memory behaviour, invisible to the cache-less tie. No ownership / recovery theorems for the new calls beyond C14x's quant_o / subst_o. Quick tier: a script with more than 40 capacities is swept at every capacity of the first 32 and the last five and at every third one in between (thorough: all)."
 META["technique"] += "; package C14o: ownership (token) models of the ZBDD and the complement-edge apply algorithms (coq/Mgr/OomOwnZK.v kind-generic primitives on tagged edges, OomOwnZ.v, OomOwnC.v) with the EdgeDropGuard placement of the code, incl. the two-phase ZBDD operators nand / nor / equiv, reduce_borrowed, binary_ternary, the BCDD tag moves of reduce / not_owned"
-META["level_text"] += " Package C14o (C14_ownz_{balance,counts,err_collect,example,balance_late_equiv_refuted}, C14_ownc_{balance,counts,err_collect,example,balance_late_refuted}, C14_own_rolled_back_meaning; 11 theorems, each family one conjunction over the algorithms to keep the Print Assumptions audit short): for the ZBDD algorithms apply_union / intsec / diff, apply_not, apply_symm_diff, apply_ite and the eight operator entry points (nand / nor / equiv = set operation then complement with the intermediate result in an EdgeDropGuard), and for the BCDD apply_bin And / Xor, not_edge, the eight operators and apply_ite: BALANCE (after Ok the thread owns the caller's tokens + 1, after Err exactly the caller's; multisets of tagged edges; no hypothesis), FRAME (every old node keeps level and children), COUNTS (CInv preserved, snapshot WF with rc_exact_b) and ROLLBACK (after Err the collection leaves entry by entry the table a collection of the state before would have produced) for every capacity, cache, recursor, operand order, fuel; BCDD not_edge never reports out-of-memory; refutations: seeded/C14g's placement (equiv's xor result as a bare edge during the complement) and the late recursor guards of the BCDD binary / ternary leak one token and one node on computed witnesses while the code's placement satisfies the statement on the same inputs. Tie: after every FAILING zbdd set operation / NOT / operator / ITE and bcdd operator / ITE of a one-thread case (cap < 100) the extracted ownership model (ownz_inv_b / ownc_inv_b = the hypothesis CInv checked on the snapshot before; ZBDD: the manager's tautology-chain references are tokens of a second owner) must have the outcome of the bounded model, own exactly the harness's inner handles, and predict the real snapshot up to renaming incl. every reference count and the garbage (IsoCheck.iso_core)."
+META["level_text"] += " Package C14o (C14_ownz_{balance,counts_rollback,example}, C14_ownc_{balance,counts_rollback,example}, C14_own_rolled_back_meaning; 7 theorems, each family one conjunction over the algorithms to keep the Print Assumptions audit short; the refutations are conjuncts of the example theorems): for the ZBDD algorithms apply_union / intsec / diff, apply_not, apply_symm_diff, apply_ite and the eight operator entry points (nand / nor / equiv = set operation then complement with the intermediate result in an EdgeDropGuard), and for the BCDD apply_bin And / Xor, not_edge, the eight operators and apply_ite: BALANCE (after Ok the thread owns the caller's tokens + 1, after Err exactly the caller's; multisets of tagged edges; no hypothesis), FRAME (every old node keeps level and children), COUNTS (CInv preserved, snapshot WF with rc_exact_b) and ROLLBACK (after Err the collection leaves entry by entry the table a collection of the state before would have produced) for every capacity, cache, recursor, operand order, fuel; BCDD not_edge never reports out-of-memory; refutations: seeded/C14g's placement (equiv's xor result as a bare edge during the complement), seeded/C14b's placement (ZBDD binary_ternary guards after both `?`) and the late recursor guards of the BCDD binary / ternary leak one token and one node on computed witnesses while the code's placement satisfies the statement on the same inputs. Tie: after every FAILING zbdd set operation / NOT / operator / ITE and bcdd operator / ITE of a one-thread case (cap < 100) the extracted ownership model (ownz_inv_b / ownc_inv_b = the hypothesis CInv checked on the snapshot before; ZBDD: the manager's tautology-chain references are tokens of a second owner) must have the outcome of the bounded model, own exactly the harness's inner handles, and predict the real snapshot up to renaming incl. every reference count and the garbage (IsoCheck.iso_core)."
 META["level_note"] += " Package C14o: no TOTAL (never-stuck) theorem for the ZBDD / BCDD ownership models (a stuck model run is reported by the driver as a kind=corr disagreement with the bounded model; non-vacuity by the computed example tables); no ownership model of ZBDD subset / restrict / var_edge, BCDD quant / restrict / substitute, MTBDD, TDD; successful zbdd / bcdd operations are not replayed by the ownership model (failing ones only, to keep the quick tier under 4 min); parallel recursor sequentialised as in C14x."
 
 ALLOWED_AXIOMS = ()
@@ -285,6 +285,26 @@ def script_zbdd_ite(rng, nv):
     return ops
 
 
+def script_zbdd_twophase(rng, nv):
+    """ZBDD nand / nor / equiv = set operation, then the complement with the intermediate result in an EdgeDropGuard
+    (package C14o, seeded/C14g): one thread, so that the ownership model predicts the table - counts and garbage -
+    after a failure in the SECOND phase"""
+    ops = [f"VARS {nv}"]
+    live = []
+
+    def fresh():
+        live.append(len(live))
+        return live[-1]
+
+    for _ in range(2):
+        ops.append(f"{rng.choice(['TT', 'TTI'])} h{fresh()} {nv} {ddgen.rand_tt(rng, nv):x}")
+    ops.append(f"VAR h{fresh()} {rng.randrange(nv)}")
+    for _ in range(3):
+        a, b = rng.sample(live, 2)
+        ops.append(f"{rng.choice(['EQUIV', 'EQUIV', 'NAND', 'NOR'])} h{fresh()} h{a} h{b}")
+    return ops
+
+
 def script_mtbdd(rng, nv, length):
     ops = [f"VARS {nv}"]
     live = []
@@ -387,6 +407,8 @@ def gen_scripts(ctx):
             for length in (5, 8):
                 res.append((f"s{sid}", "zbdd", threads, 4, script_zbdd(rng, 4, length))); sid += 1
         res.append((f"s{sid}", "zbdd", 1, 4, script_zbdd_ite(rng, 4))); sid += 1
+        # package C14o: two-phase operators (own generator state: the other scripts of a seed do not change)
+        res.append((f"s{sid}", "zbdd", 1, 3, script_zbdd_twophase(random.Random(ctx.seed * 7919 + 1400 + len(res)), 3))); sid += 1
         for threads in (1, 2, 8):
             res.append((f"s{sid}", "mtbdd", threads, 3, script_mtbdd(rng, 3, 6))); sid += 1
         # TDD (package TDDx): the rule set is sequential; the worker count only sizes the manager's pool
